@@ -419,6 +419,19 @@ class Tree:
                 elif k == "td":
                     ac.add_teardown_callback(lambda l=st[1]: env.log("td", l))
                     env.log("td-reg", st[1])
+                elif k == "tds":
+                    # the SAME callable object is registered by every component / phase that has this step (a shared helper such as
+                    # pool.release): every registration is one run; the labels are handed out last-registered-first
+                    stack = env.data.setdefault("tds_stack", [])
+                    shared = env.data.get("tds_fn")
+                    if shared is None:
+                        def shared() -> None:
+                            env.log("td", stack.pop() if stack else "tds:unregistered-extra-run")
+
+                        env.data["tds_fn"] = shared
+                    stack.append(st[1])
+                    ac.add_teardown_callback(shared)
+                    env.log("td-reg", st[1])
                 elif k == "tdaw":
                     # a teardown callback that returns an awaitable which is not a coroutine (an object with __await__)
                     class _Aw:
